@@ -78,7 +78,7 @@ SCENARIOS = [
     dict(prop="C19", name="D55 numeric argument with leading white space", tree={b"f": b"a\n"}, argv=[b"-f", b"-p", b" 1", b"-i", b"p.diff"],
          patch=b"--- a/f\n+++ b/f\n@@ -1 +1 @@\n-a\n+b\n",
          expect=lambda r: _exp(r.exit == 2 and files(r).get(b"f") == b"a\n", f"-p ' 1' was accepted (exit {r.exit})")),
-    dict(prop="C04", name="D61 deleting './f' then another section", tree={b"f": b"x\n", b"keep": b"k\n"}, argv=[b"-p0", b"-i", b"p.diff"],
+    dict(prop="C04", name="D61 deleting './f' then another section", no_tie="the model does not normalise './'", tree={b"f": b"x\n", b"keep": b"k\n"}, argv=[b"-p0", b"-i", b"p.diff"],
          patch=b"--- ./f\n+++ /dev/null\n@@ -1 +0,0 @@\n-x\n" + u(b"keep", [b"k"], [b"K"]),
          expect=lambda r: _exp(r.exit == 0 and files(r) == {b"keep": b"K\n"}, f"removing './f' was fatal or the next section was not applied (exit {r.exit}, {r.stderr[-80:]!r})")),
     dict(prop="C18", name="D62 -B with a directory that does not exist", tree={b"d/f": L5}, argv=[b"-b", b"-B", b"bak/", b"-p0", b"-i", b"p.diff"],
@@ -136,11 +136,11 @@ SCENARIOS = [
     dict(prop="C11", name="D90 Prereq word starting with a double quote", tree={b"f": b'version "1.2\none\n'}, argv=[b"-i", b"p.diff"],
          patch=b'Prereq: "1.2\n--- f\n+++ f\n@@ -1,2 +1,2 @@\n version "1.2\n-one\n+ONE\n',
          expect=lambda r: _exp(r.exit == 0 and files(r) == {b"f": b'version "1.2\nONE\n'}, f"a Prereq word starting with a quote ends the run (exit {r.exit}, {r.stderr[-80:]!r})")),
-    dict(prop="C04", name="D91 empty parent directory that may not be removed", tree={b"top": ("d", 0o555), b"top/d": ("d", 0o777), b"top/d/f": b"hello\n", b"g": b"one\ntwo\nthree\n"},
+    dict(prop="C04", name="D91 empty parent directory that may not be removed", no_tie="the model does not check the permissions of directories", tree={b"top": ("d", 0o555), b"top/d": ("d", 0o777), b"top/d/f": b"hello\n", b"g": b"one\ntwo\nthree\n"},
          argv=[b"-p0", b"-i", b"p.diff"], uid=65534,
          patch=b"--- top/d/f\n+++ /dev/null\n@@ -1 +0,0 @@\n-hello\n" + u(b"g", [b"two"], [b"TWO"], 2),
          expect=lambda r: _exp(r.exit == 0 and files(r) == {b"g": b"one\nTWO\nthree\n"}, f"rmdir failing with EACCES ends the run: the later section is neither applied nor rejected (exit {r.exit}, files {files(r)})")),
-    dict(prop="C15", name="D91 dry run and an empty parent directory that may not be removed", tree={b"top": ("d", 0o555), b"top/d": ("d", 0o777), b"top/d/f": b"hello\n"},
+    dict(prop="C15", name="D91 dry run and an empty parent directory that may not be removed", no_tie="the model does not check the permissions of directories", tree={b"top": ("d", 0o555), b"top/d": ("d", 0o777), b"top/d/f": b"hello\n"},
          argv=[b"-p0", b"-i", b"p.diff"], uid=65534, dry=True,
          patch=b"--- top/d/f\n+++ /dev/null\n@@ -1 +0,0 @@\n-hello\n", expect=lambda r: None),
     dict(prop="C09", name="D31 --backup and a git stream whose last section is cut off", tree={b"a.txt": b"one\ntwo\nthree\n", b"c.txt": b"x\ny\nz\n"}, argv=[b"--backup", b"-p1", b"-i", b"p.diff"],
@@ -175,19 +175,53 @@ SCENARIOS = [
     dict(prop="C06", name="D88 removal applied a second time with -t", tree={b"keep": b"k\n"}, argv=[b"-t", b"-i", b"p.diff"],
          patch=b"--- f\n+++ /dev/null\n@@ -1,2 +0,0 @@\n-a\n-b\n",
          expect=lambda r: _exp(r.exit == 0 and files(r).get(b"f") == b"a\nb\n", f"re-running the removal of a file with -t does not restore it (exit {r.exit}, tree {sorted(r.after)})")),
+    dict(prop="C14", name="D97 line added after a last line without newline (normal diff)", tree={b"f": b"a\nb\nc"}, argv=[b"-i", b"p.diff", b"f"],
+         patch=b"3a4\n> d\n",
+         expect=lambda r: _exp(r.exit == 0 and files(r).get(b"f") == b"a\nb\nc\nd\n", f"the added line was joined to the last line of the file: {files(r).get(b'f')!r}")),
+    dict(prop="C02", name="D97 line added after a last line without newline (fuzz)", tree={b"f": b"a\nb\nc"}, argv=[b"--no-backup-if-mismatch", b"-i", b"p.diff"],
+         patch=b"--- f\n+++ f\n@@ -3 +3,2 @@\n c\n+d\n",
+         expect=lambda r: _exp(r.exit == 0 and files(r).get(b"f") == b"a\nb\nc\nd\n", f"the added line was joined to the last line of the file: {files(r).get(b'f')!r}")),
+    dict(prop="C20", name="D97 -D and a line added after a last line without newline", tree={b"f": b"a\nb\nc"}, argv=[b"-D", b"SYM", b"-i", b"p.diff"],
+         patch=b"--- f\n+++ f\n@@ -3,0 +4 @@\n+d\n",
+         expect=lambda r: _exp(r.exit == 0 and files(r).get(b"f") == b"a\nb\nc\n#ifdef SYM\nd\n#endif\n", f"the #ifdef was written onto the last line of the file: {files(r).get(b'f')!r}")),
+    dict(prop="C16", name="D101 -r FILE that is a symbolic link", tree={b"f": L5, b"logs": ("d", 0o755), b"logs/rejects.log": b"", b"rej": ("l", b"logs/rejects.log")},
+         argv=[b"-f", b"--no-backup-if-mismatch", b"-r", b"rej", b"-i", b"p.diff"], patch=u(b"f", [b"zwei"], [b"TWO"], 2),
+         expect=lambda r: _exp(r.exit == 1 and r.after.get(b"rej", ("?",))[0] == "l" and b"zwei" in files(r).get(b"logs/rejects.log", b""), f"a reject file named with -r is whatever it is: the link was replaced or the rejects are missing (exit {r.exit})")),
+    dict(prop="C16", name="D101 reject file name that is a hard link", tree={b"f": L5, b"by": b"precious\n"}, hardlinks={b"f.rej": b"by"},
+         argv=[b"-f", b"--no-backup-if-mismatch", b"-i", b"p.diff"], patch=u(b"f", [b"zwei"], [b"TWO"], 2), no_tie="the model has no hard links",
+         expect=lambda r: _exp(files(r).get(b"by") == b"precious\n" and b"zwei" in files(r).get(b"f.rej", b""), "the rejects were written into a file which has another name as well")),
+    dict(prop="C17", name="D102 git mode 160000 (a submodule) is no symbolic link", tree={b"keep": b"k\n"}, argv=[b"-p1", b"-i", b"p.diff"],
+         patch=b"diff --git a/sub b/sub\nnew file mode 160000\nindex 0000000..1234567\n--- /dev/null\n+++ b/sub\n@@ -0,0 +1 @@\n+Subproject commit 1234567890123456789012345678901234567890\n",
+         expect=lambda r: _exp(r.after.get(b"sub", ("f",))[0] != "l", "a dangling symbolic link to 'Subproject commit ...' was created")),
     # ---- recorded in round three ----------------------------------------------------------------------------------------------------------
-    dict(prop="C01", name="D86 first line of the first hunk is an empty line", tag="unified.first-hunk-line-empty", tree={b"f": b"\nb\nc\n"}, argv=[b"-i", b"p.diff"],
+    dict(prop="C01", name="D86 first line of the first hunk is an empty line", tree={b"f": b"\nb\nc\n"}, argv=[b"-i", b"p.diff"],
          patch=b"--- f\n+++ f\n@@ -1,3 +1,3 @@\n\n-b\n+B\n c\n",
          expect=lambda r: _exp(r.exit == 0 and files(r) == {b"f": b"\nB\nc\n"}, f"a unified diff whose first hunk starts with an empty line (diff --suppress-blank-empty) is taken for garbage (exit {r.exit})")),
     dict(prop="C12", name="D87 git mode change written without a/ b/ prefixes", tag="git.header-names-without-prefix", tree={b"f": (L5, 0o644)}, argv=[b"-p0", b"-i", b"p.diff"],
          patch=b"diff --git f f\nold mode 100644\nnew mode 100755\n",
          expect=lambda r: _exp(r.exit == 0 and mode(r, b"f") == 0o755, f"'diff --git f f' (git diff --no-prefix) with -p0: the file is not found (exit {r.exit})")),
-    dict(prop="C16", name="D95 reject file name that is a symbolic link", tag="reject.through-symlink", tree={b"f": L5, b"by": b"precious\n", b"f.rej": ("l", b"by")},
+    dict(prop="C16", name="D95 reject file name that is a symbolic link", tree={b"f": L5, b"by": b"precious\n", b"f.rej": ("l", b"by")},
          argv=[b"-f", b"--no-backup-if-mismatch", b"-i", b"p.diff"], patch=u(b"f", [b"zwei"], [b"TWO"], 2),
-         expect=lambda r: _exp(files(r).get(b"by") == b"precious\n", "the rejects were written through the link f.rej into the file it points to")),
+         expect=lambda r: _exp(r.after.get(b"by") == r.before.get(b"by") and r.after.get(b"f.rej", ("?",))[0] == "f", "the rejects were written through the link f.rej into the file it points to")),
+    dict(prop="C16", name="D95 reject file name that is a dangling symbolic link", tree={b"f": L5, b"f.rej": ("l", b"sub/nowhere"), b"sub": ("d", 0o755)},
+         argv=[b"-f", b"--no-backup-if-mismatch", b"-i", b"p.diff"], patch=u(b"f", [b"zwei"], [b"TWO"], 2),
+         expect=lambda r: _exp(b"sub/nowhere" not in r.after and r.after.get(b"f.rej", ("?",))[0] == "f", "the rejects were written to where the dangling link f.rej points to")),
+    dict(prop="C16", name="D95 empty backup name that is a symbolic link", tree={b"by": b"precious\n", b"n.orig": ("l", b"by")}, argv=[b"-b", b"-i", b"p.diff"],
+         patch=b"--- /dev/null\n+++ n\n@@ -0,0 +1 @@\n+hello\n",
+         expect=lambda r: _exp(r.exit == 0 and r.after.get(b"by") == r.before.get(b"by") and files(r).get(b"n.orig") == b"" and files(r).get(b"n") == b"hello\n",
+                               "the empty backup of a created file was made through the link n.orig: the file it points to is emptied")),
     dict(prop="C11", name="D96 git binary section followed by a plain section", tag="git.binary-then-plain", tree={b"f": b"a\nb\nc\n", b"bin": b"x"}, argv=[b"-f", b"-i", b"p.diff"],
          patch=b"diff --git a/bin b/bin\nindex 1234567..89abcde 100644\nGIT binary patch\nliteral 4\nLc${NkU|;|M00aO5\n\nliteral 3\nKc${NkU}69V0ssI2\n\n--- f\n+++ f\n@@ -1,3 +1,3 @@\n a\n-b\n+B\n c\n",
          expect=lambda r: _exp(r.exit == 1 and files(r).get(b"f") == b"a\nB\nc\n", f"the plain section after a binary one is not applied (exit {r.exit})")),
+    dict(prop="C03", name="D99 last context line beyond the end of the file", tag="locator.fuzz-overhang-eof", tree={b"f": b"a\nb\nc\nd\n"}, argv=[b"--no-backup-if-mismatch", b"-i", b"p.diff"],
+         patch=b"--- f\n+++ f\n@@ -2,4 +2,4 @@\n b\n-c\n+C\n d\n e\n",
+         expect=lambda r: _exp(r.exit == 0 and files(r).get(b"f") == b"a\nb\nC\nd\n", f"a hunk which fits once its last context line is ignored (fuzz 1) is rejected because that line would lie beyond the end of the file (exit {r.exit})")),
+    dict(prop="C06", name="D100 git rename with an edit applied a second time with -t", tag="reapply.rename-keeps-new-name", tree={b"n": b"l1\nl2\nL3\nl4\nl5\n"}, argv=[b"-t", b"-p1", b"-i", b"p.diff"],
+         patch=b"diff --git a/o b/n\nsimilarity index 80%\nrename from o\nrename to n\n--- a/o\n+++ b/n\n@@ -1,5 +1,5 @@\n l1\n l2\n-l3\n+L3\n l4\n l5\n",
+         expect=lambda r: _exp(files(r) == {b"o": L5}, f"-t reverts the lines but not the rename: files {sorted(files(r))}")),
+    dict(prop="C01", name="D103 context diff with an empty unchanged line given as an empty line", tag="context.suppress-blank-empty", tree={b"f": b"a\n\nb\n"}, argv=[b"-i", b"p.diff"],
+         patch=b"*** f\n--- f\n***************\n*** 1,3 ****\n  a\n\n! b\n--- 1,3 ----\n  a\n\n! B\n",
+         expect=lambda r: _exp(r.exit == 0 and files(r) == {b"f": b"a\n\nB\n"}, f"a context diff as 'diff -c --suppress-blank-empty' writes it is not applied (exit {r.exit}, {r.stderr[-60:]!r})")),
     # ---- recorded as known findings in round two ---------------------------------------------------------------------------------------------------
     dict(prop="C04", name="D83 later section that ends right after its range line", tag="truncated.section-after-range-line", tree={b"f": L5, b"g": L5}, argv=[b"-i", b"p.diff"],
          patch=u(b"f", [b"l3"], [b"L3"], 3) + b"--- g\n+++ g\n@@ -1,2 +1,2 @@\n",
@@ -232,6 +266,8 @@ def _tree(sc):
         else:
             t[p] = ("f", v[0], v[1])
     t[b"p.diff"] = ("f", sc["patch"], sc.get("patch_mode", 0o644))
+    for name, to in sc.get("hardlinks", {}).items():
+        t[name] = ("h", to)
     return t
 
 
@@ -265,4 +301,7 @@ def run(R, prop):
         dist[s["name"]] = "ok" if msg is None else ("known finding" if s.get("tag") else "VIOLATION")
         if msg is not None:
             R.oracle_fail(f"{s['name']}: {msg}", data, tag=s.get("tag"))
-    R.dist["fixed scenarios from round two"] = dist
+    R.dist["fixed scenarios from rounds two and three"] = dist
+    # the same inputs through the model: where a defect was repaired the model was repaired with it, where one is recorded the model has it too
+    import ties
+    ties.t8(R, "T8-hunted", [dict(tree=_tree(s), argv=s["argv"], uid=s.get("uid", 0)) for s in scs if not s.get("patch_owner_root") and not s.get("no_tie")])
